@@ -3,6 +3,18 @@
 
 unsigned impl_max_stack() { return (unsigned)CBOR_MAX_STACK_SIZE; }
 unsigned impl_growth() { return (unsigned)CBOR_BUFFER_GROWTH; }
+size_t impl_serialize_typed(const cbor_item_t* it, unsigned char* buf, size_t cap) {
+  switch (cbor_typeof(it)) {
+    case CBOR_TYPE_UINT: return cbor_serialize_uint(it, buf, cap);
+    case CBOR_TYPE_NEGINT: return cbor_serialize_negint(it, buf, cap);
+    case CBOR_TYPE_BYTESTRING: return cbor_serialize_bytestring(it, buf, cap);
+    case CBOR_TYPE_STRING: return cbor_serialize_string(it, buf, cap);
+    case CBOR_TYPE_ARRAY: return cbor_serialize_array(it, buf, cap);
+    case CBOR_TYPE_MAP: return cbor_serialize_map(it, buf, cap);
+    case CBOR_TYPE_TAG: return cbor_serialize_tag(it, buf, cap);
+    default: return cbor_serialize_float_ctrl(it, buf, cap);
+  }
+}
 
 static bool nan32(uint32_t u) { return ((u >> 23) & 0xff) == 0xff && (u & 0x7fffff); }
 static bool nan64(uint64_t u) { return ((u >> 52) & 0x7ff) == 0x7ff && (u & 0xfffffffffffffull); }
